@@ -27,7 +27,7 @@ for id in $ids; do
   det=$(echo "$out" | grep -m1 -E 'detail:' | cut -c1-400)
   echo "$id exit=$code ${e}s $line"
   [ -n "$det" ] && echo "     $det"
-  if [ $code -eq 1 ]; then caught="$caught $id"; elif [ $code -eq 0 ]; then missed="$missed $id"; else missed="$missed $id(exit$code)"; fi
+  if [ $code -eq 1 ]; then caught="$caught $id"; [ "${STOP_FIRST:-0}" = 1 ] && break; elif [ $code -eq 0 ]; then missed="$missed $id"; else missed="$missed $id(exit$code)"; fi
 done
 echo "CAUGHT:$caught"
 echo "MISSED:$missed"
